@@ -317,7 +317,7 @@ def run(ctx):
                 cid = tgt[2][1]
                 f = dict(cid[3]) if cid[0] == 'agg' else {}
                 fr, ly = f.get('frame'), f.get('layer')
-                ok = fr is not None and fr[0] == 'field' and fr[2] == '0' and fr[1] == ('variant', ('field', ('param', celp, 'cel'), 'content'), 'Linked') \
+                ok = fr is not None and fr[0] == 'field' and fr[2] == '0' and fr[1][0] == 'variant' and fr[1][2] == 'Linked' and is_param_path(fr[1][1], celp, ['content']) \
                     and is_param_path(ly, celp, ['data', 'layer_index'])
             ok = ok and is_param(at[0], 1) and is_param(at[1], 2)
             ctx.inst('N', 'write_cel#linked', ok, 'linked cel draws %s; must be framedata.cel(CelId{frame: linked frame, layer: this cel\'s layer}) on '
@@ -378,4 +378,5 @@ def run(ctx):
     # ---------- shared skeleton clauses
     render.opacity_and_mode(ctx)
     render.operands_and_offset(ctx)
+    render.no_extra_skips(ctx, rule='K8')
     ctx.samples = [i for i in ctx.instances if i['rule'] in ('T', 'V', 'B', 'N', 'E')][:18]
